@@ -25,11 +25,14 @@ def vcs(B):
     B.prog.options['dyn_shapes'] = {REC: {'Ac_': (N, N), 'Bc_': (N, 1), 'J_': (M, N), 'Y_': (M, 1), 'W_': (M, 1), 'JtJ_': (N, N), 'inverseJtJ_': (N, N), 'JtY_': (N, 1)}}
     B.prog.options['const_members'] = {'estimateSize_': N, 'dataSize_': D}
     B.prog.options['dyn_returns'] = {'estimateUsingCholeskyDecomposition': (N, 1)}
+    B.prog.options['dyn_locals'] = {'Ac': (N, N), 'Bc': (N, 1)}
     B.function('LS__computeJTJ', P, 'computeJTJ_')
     B.function('LS__computeJTY', P, 'computeJTY_')
     B.function('LS__weight', P, 'weightJAndY_')
     B.function('LS__chol', P, 'estimateUsingCholeskyDecomposition')
     B.function('LS__weighted', P, 'weightedEstimate')
+    B.function('LS__setPrecond2', P, 'setPreconditionner', nparams=2)
+    B.function('LS__setPrecond1', P, 'setPreconditionner', nparams=1)
     B.extract()
     fl = ['LS__computeJTJ', 'LS__computeJTY', 'LS__chol']
 
@@ -108,3 +111,22 @@ def vcs(B):
     fullw = [app('not', app('=', detw, '0.0'))]
     for i in range(N):
         B.vc('weighted_estimate.normal_equation_residual_of_the_weighted_rows[%d].vanishes' % i, app('=', fold([mul(Aw[i][j], x4[j]) for j in range(N)]), bw[i]), fullw, functions=fw, timeout=60, bounded=BOUND)
+
+    # (5) configuring the preconditioner replaces the whole affine map, from any prior state (a linear preconditioner has a zero offset)
+    fp = ['LS__setPrecond1', 'LS__setPrecond2']
+    A2 = [B.real('newAc_%d' % k) for k in range(N * N)]
+    b2 = [B.real('newBc_%d' % k) for k in range(N)]
+    ls5 = prior('ls_e')
+    B.call('LS__setPrecond2', ls5, list(A2), list(b2))
+    B.take_obligations()
+    for k in range(N * N):
+        B.vc('setPreconditionner_Ac_Bc.matrix[%d].is_the_given_matrix' % k, app('=', ls5['Ac_'][k], A2[k]), functions=fp, bounded=BOUND)
+    for k in range(N):
+        B.vc('setPreconditionner_Ac_Bc.offset[%d].is_the_given_offset' % k, app('=', ls5['Bc_'][k], b2[k]), functions=fp, bounded=BOUND)
+    ls6 = prior('ls_f')
+    B.call('LS__setPrecond1', ls6, list(A2))
+    B.take_obligations()
+    for k in range(N * N):
+        B.vc('setPreconditionner_Ac.matrix[%d].is_the_given_matrix' % k, app('=', ls6['Ac_'][k], A2[k]), functions=fp, bounded=BOUND)
+    for k in range(N):
+        B.vc('setPreconditionner_Ac.offset[%d].is_zero_whatever_it_was' % k, app('=', ls6['Bc_'][k], '0.0'), functions=fp, bounded=BOUND)
